@@ -8,19 +8,28 @@ import YaegiVerif.Generated.C09
   C09 — cancellation stops all interpreted activity. Property theorems over the run-id machine
   (Model/RunId.lean); helper lemmas are in Proofs/C09{Inv,Stop,Pre}.lean.
 
-  Reading guide. A state `σ` of the machine is: the interpreter id, whether `done` is closed, the id of the
-  root frame, the entries `Execute` has not started yet, and the goroutines (each a stack of frames over an
-  abstract operation tree, `armed` = has passed the run-id guard for its next operation — where the step hook
-  sits —, `blocked` = parked in a channel operation). `runSched F σ sched` applies an arbitrary list of choices
-  (goroutine i moves / a blocked operation completes by communication / the context is cancelled).
-  `opsOf σ i` and `ticksOf σ i` count the operations and host calls goroutine `i` has executed.
+  Reading guide. A state `σ` of the machine is: the interpreter id, whether `done` is closed (and replaced), the id
+  and the done channel of the root frame, the entries `Execute` has not started yet, and the goroutines (each a
+  stack of frames over an abstract operation tree, `armed` = has passed the run-id guard for its next operation —
+  where the step hook sits —, `blocked` = parked in a channel operation, `pending` = started by a `go` statement and
+  has not made its frame yet). `runSched F σ sched` applies an arbitrary list of choices (goroutine i moves / a
+  blocked operation completes by communication / the context is cancelled). `opsOf σ i` and `ticksOf σ i` count
+  the operations and host calls goroutine `i` has executed.
+
+  State after the repairs of round 2 (c403bf5 F09, cc65000 F26, 1578873 F09-2, d26dd9e F09-1, ba001d8, 50c4f88,
+  4a41b28 F10): the clauses the domain of the main theorem had for F09, F26 and F09-2 are gone — the theorem holds
+  for cancellations inside every entry of the run list, for functions compiled by a plain `Eval` and for closures
+  stored by earlier evaluations. One clause is new (F09-3, introduced by 4a41b28): a call of a function value
+  takes the id of the ROOT frame when its frame is made, and `Execute` refreshes that id when it returns; a call
+  (outside the goroutine of `Execute`) or a `go` statement of a function value that is in flight at the
+  cancellation and makes its frame after `Execute` has returned runs as part of the new run.
 -/
 namespace YaegiVerif.Props.C09
 open YaegiVerif YaegiVerif.RunId YaegiVerif.Proofs.C09
 
 /-! ### ties to the source -/
 
-/-- tie: the run-id facts extracted from interp/{interp,program,run}.go are the ones the proofs use -/
+/-- tie: the run-id facts extracted from interp/{interp,program,run,src}.go are the ones the proofs use -/
 theorem runidfacts_tie : Generated.C09.facts = Expected.C09.facts := by decide
 
 /-- tie: the run list of `Execute` (root code and global variables on the root frame, then every init and main) -/
@@ -41,19 +50,32 @@ theorem ideal_sound : Sound Expected.C09.ideal := by
 /-! ### the invariant, over all schedules -/
 
 /-- **Invariant, for all schedules**: from the state in which `EvalWithContext` starts `Execute`, after any
-    sequence of goroutine transitions, completed communications and the cancellation, every live frame and the
-    root frame carry an id at most the interpreter's, and all frames of a goroutine carry the same id
-    (a callee or a spawned goroutine is stale exactly when its creator is). -/
+    sequence of goroutine transitions, completed communications and the cancellation, every live frame, every
+    goroutine that has not made its frame yet and the root frame carry an id at most the interpreter's, and the
+    goroutine of `Execute` is the first one and the only one flagged so. -/
 theorem invariant_all_schedules (id rootId : Nat) (entries : List Entry) (h : rootId ≤ id) (sched : List Choice) :
-    Inv (runSched Generated.C09.facts (start Generated.C09.facts id rootId entries) sched) := by
+    Inv (runSched Generated.C09.facts (start Generated.C09.facts id rootId entries) sched) ∧
+    MainOk (runSched Generated.C09.facts (start Generated.C09.facts id rootId entries) sched) := by
   rw [runidfacts_tie]
-  exact inv_runSched expected_sound sched _ (inv_start _ id rootId entries h)
+  exact ⟨inv_runSched expected_sound sched _ (inv_start _ id rootId entries h),
+    mainOk_runSched _ sched _ (mainOk_start _ id rootId entries)⟩
 
-/-- a frame created by an operation of a frame with id `c` (callee, closure call, host callback, goroutine)
-    gets the id `c`: children of stale frames are stale -/
-theorem children_of_stale_are_stale (s : Site) (parent cur : Nat) :
-    newId (Generated.C09.facts.site s) parent cur = parent := by
-  rw [runidfacts_tie]; cases s <;> rfl
+/-- a frame made by a call of a declared function (or a `go` statement of one) from a frame with id `c` gets the id
+    `c`: callees and spawned goroutines of stale frames are stale -/
+theorem callee_of_stale_is_stale (parent cur root : Nat) :
+    newId (Generated.C09.facts.site .call) parent cur root = parent := by
+  rw [runidfacts_tie]; rfl
+
+/-- a frame made by a call of a function value (closure, method value, function handed to the host) gets the id the
+    ROOT frame has at that moment, whatever the frame that made the function value or the call carries -/
+theorem function_value_frame_takes_root_id (s : Site) (hs : s ≠ .call) (parent cur root : Nat) :
+    newId (Generated.C09.facts.site s) parent cur root = root := by
+  rw [runidfacts_tie]; cases s <;> first | rfl | exact absurd rfl hs
+
+/-- an entry of the run list gets the id `Execute` stored in the root frame when it started (c403bf5): entries
+    started after a cancellation are stale -/
+theorem entry_takes_root_id (cur root : Nat) : newId Generated.C09.facts.entryId root cur root = root := by
+  rw [runidfacts_tie]; rfl
 
 /-- a stale frame executes nothing: the guard of `runCfg` fails -/
 theorem stale_frame_fails_guard (fid cur : Nat) (h : fid < cur) : guardOk Generated.C09.facts fid cur = false := by
@@ -61,46 +83,58 @@ theorem stale_frame_fails_guard (fid cur : Nat) (h : fid < cur) : guardOk Genera
 
 /-! ### blocking operations -/
 
-/-- **Every blocking generator listed by the extractor races `done`** when its closure was generated while
-    `cancelChan` was set (recv, recv2, send), and unconditionally for `range` over a channel and `select`. -/
-theorem blocking_ops_cancellable (k : BlkKind) :
-    cancellable Generated.C09.facts k true = true ∧
-    (k = .range ∨ k = .select → ∀ c, cancellable Generated.C09.facts k c = true) := by
+/-- **Every blocking generator listed by the extractor races `done`**, whenever and by whatever kind of evaluation
+    its closure was generated (cc65000: `cancelChan` is set in `New`). -/
+theorem blocking_ops_cancellable (k : BlkKind) (c : Bool) : cancellable Generated.C09.facts k c = true := by
   rw [runidfacts_tie]
-  cases k <;> refine ⟨by decide, ?_⟩ <;> intro h c <;> cases c <;> first | rfl | (rcases h with h | h <;> cases h)
+  cases k <;> cases c <;> rfl
+
+/-- every frame of an evaluation races the done channel of that evaluation: `newFrame` copies the creating frame's,
+    `newCallFrame` takes the root frame's, which `Execute` sets first (1578873) -/
+theorem frames_race_current_done (s : Site) : childCur Generated.C09.facts s true true = true := by
+  rw [runidfacts_tie]; cases s <;> rfl
+
+/-- hence every program is inside the part of the domain that used to exclude F26 and F09-2 -/
+theorem all_cancellable (p : Prog) : p.canc Generated.C09.facts = true := by
+  induction p with
+  | done => rfl
+  | step p ih => simpa [Prog.canc] using ih
+  | tick p ih => simpa [Prog.canc] using ih
+  | mkclosure p ih => simpa [Prog.canc] using ih
+  | call s b p ihb ihp => simp [Prog.canc, ihb, ihp, frames_race_current_done]
+  | spawn s b p ihb ihp => simp [Prog.canc, ihb, ihp, frames_race_current_done]
+  | block k c p ih => simp [Prog.canc, ih, blocking_ops_cancellable]
 
 /-- a goroutine blocked in an operation that races the channel `stop()` closes is released once it is closed, and
-    its frame ends (the operation returns `nil`); an operation blocks with that property exactly when its variant
-    is cancellable and its frame's done channel is the current one (`execOp`) -/
+    its frame ends (the operation returns `nil`) -/
 theorem blocked_op_enabled_by_done (σ : St) (i : Nat) (g : G) (k : BlkKind)
     (hg : σ.gs[i]? = some g) (hb : g.blocked = some (k, true)) (hd : σ.done = true) :
     (stepC Generated.C09.facts σ (.run i)).gs[i]? = some { g with blocked := none, stack := g.stack.tail } := by
   have hi : i < σ.gs.length := (List.getElem?_eq_some_iff.mp hg).1
   show (stepRun Generated.C09.facts σ i).gs[i]? = _
-  unfold stepRun
-  simp only [hg]
-  rw [(markReturn_gs _ _ _).1]
+  rw [(stepRun_gs _ σ i g hg).1]
   simp [stepG, hb, wake, hd, hi]
 
 /-! ### the cancellation -/
 
-/-- the domain of the partial theorem (decidable): the cancellation arrives while `Execute` is inside the last
-    entry of its run list (nothing is pending), every blocking operation of the program is of a cancellable
-    variant (no channel operation compiled by a plain `Eval`), and no closure made by an earlier evaluation is
-    called (`Prog.canc` checks both) -/
-def Dom (F : RunIdFacts) (entries : List Entry) (σ : St) : Bool :=
-  σ.runList.isEmpty && entries.all (fun e => e.prog.canc F)
+/-- the domain of the partial theorem, a decidable predicate of the state at the moment of the cancellation: no
+    goroutine is about to make a frame for a call of a function value whose id it will read later than the guard
+    it has passed — no `go` statement of a function value is in flight, no call of a function value is in flight
+    outside the goroutine of `Execute`, no goroutine started by such a `go` statement has still to make its frame
+    (`G.fvPending`). Where the cancellation arrives in the run list, by which kind of evaluation the functions were
+    compiled and which evaluation made the closures that are called no longer matters. -/
+def Dom (F : RunIdFacts) (σ : St) : Bool := σ.gs.all (fun g => !g.fvPending F)
 
 /-- what the property demands of a cancellation in state `σ1` (reached while the call is still watching its
     context): after any further schedule every goroutine has executed at most the one operation it had in
     flight, has made at most the one host call that operation may be, every goroutine can be run to its end
-    (empty stack, not blocked), and the call has returned the context's error -/
+    (empty stack, not blocked) and `Execute` to the end of its run list, and the call has returned the context's error -/
 def StopsEverything (F : RunIdFacts) (σ1 : St) : Prop :=
   ∀ post : List Choice,
     let σ3 := runSched F (stepC F σ1 .stop) post
     (∀ i, opsOf σ3 i ≤ opsOf σ1 i + (if armedOf σ1 i then 1 else 0)) ∧
     (∀ i, ticksOf σ3 i ≤ ticksOf σ1 i + (if armedOf σ1 i then 1 else 0)) ∧
-    (∀ g ∈ (drain F σ3 σ3.weight).gs, finished g = true) ∧
+    ((∀ g ∈ (drain F σ3 σ3.weight).gs, finished g = true) ∧ (drain F σ3 σ3.weight).runList = []) ∧
     σ3.ret = some .ctxErr
 
 /-- the full-strength statement: for every program, every schedule before the cancellation and every moment of it -/
@@ -109,18 +143,26 @@ def C09_full_statement (F : RunIdFacts) : Prop :=
     (runSched F (start F id rootId entries) pre).watching = true →
     StopsEverything F (runSched F (start F id rootId entries) pre)
 
-/-- the general form, for any fact record with the sound id choices: the two conditions of `Dom` may each be
-    replaced by the corresponding repair of the interpreter -/
+theorem weight_zero_all (σ : St) (h : σ.weight = 0) : (∀ g ∈ σ.gs, finished g = true) ∧ σ.runList = [] := by
+  unfold St.weight at h
+  exact ⟨weight_zero_finished _ (by omega), List.length_eq_zero_iff.mp (by omega)⟩
+
+/-- the general form, for any fact record with sound id choices -/
 theorem stops_everything_of {F : RunIdFacts} (hF : Sound F) (id rootId : Nat) (entries : List Entry)
     (pre : List Choice) (hroot : rootId ≤ id)
     (hw : (runSched F (start F id rootId entries) pre).watching = true)
-    (hl : (runSched F (start F id rootId entries) pre).runList = [] ∨ F.execChecksCancel = true)
-    (hc : ∀ e ∈ entries, e.prog.canc F = true) :
+    (hc : ∀ e ∈ entries, e.prog.canc F = true)
+    (hdom : Dom F (runSched F (start F id rootId entries) pre) = true) :
     StopsEverything F (runSched F (start F id rootId entries) pre) := by
   intro post
   have hinv := inv_runSched hF pre _ (inv_start F id rootId entries hroot)
+  have hmain := mainOk_runSched F pre _ (mainOk_start F id rootId entries)
   have hpre := pre_runSched F pre _ (pre_start F id rootId entries hc)
-  have hdead := dead_of_stop hF _ hinv hpre hw hl
+  have hdom' : ∀ g ∈ (runSched F (start F id rootId entries) pre).gs, g.fvPending F = false := by
+    intro g hg
+    have := List.all_eq_true.mp hdom g hg
+    simpa using this
+  have hdead := dead_of_stop hF _ hinv hmain hpre hw hdom'
   have hstopgs : (stepStop F (runSched F (start F id rootId entries) pre)).gs = (runSched F (start F id rootId entries) pre).gs := by
     simp [stepStop, hw]
   have hd3 := dead_runSched hF post _ hdead
@@ -141,39 +183,46 @@ theorem stops_everything_of {F : RunIdFacts} (hF : Sound F) (id rootId : Nat) (e
       rw [← tpotAt_eq]; simp only [tpotAt, hstopgs]
     show ticksOf (runSched F (stepStop F _) post) i ≤ _
     omega
-  · have := drain_terminates hF _ _ hd3 (Nat.le_refl _)
-    exact weight_zero_finished _ this.1
+  · exact weight_zero_all _ (drain_terminates hF _ _ hd3 (Nat.le_refl _)).1
   · have hs : (stepStop F (runSched F (start F id rootId entries) pre)).watching = false ∧
         (stepStop F (runSched F (start F id rootId entries) pre)).ret = some .ctxErr := by
       simp [stepStop, hw, hF.werr]
     have := ret_stable F post _ hs.1
     exact this.2.trans hs.2
 
-/-- **At most one operation after stop** (partial: `Dom`). For every program whose blocking operations are all
-    cancellable, every schedule before the cancellation, a cancellation that arrives while `Execute` is in its
-    last entry, and every schedule afterwards: each goroutine executes at most the one operation it had in
-    flight (and makes at most that one host call), every goroutine terminates, the call returns `ctx.Err()`. -/
+/-- **At most one operation after stop** (partial: `Dom`, the F09-3 window only). For EVERY program — run lists
+    with global initialisers and init functions, functions compiled by a plain `Eval`, closures stored by earlier
+    evaluations —, every schedule before the cancellation, a cancellation at ANY moment at which no call / `go` of a
+    function value is caught between its guard and the making of its frame (calls in the goroutine of `Execute`
+    are allowed), and every schedule afterwards: each goroutine executes at most the one operation it had in
+    flight (and makes at most that one host call), every goroutine terminates and `Execute` reaches the end of its
+    run list without running anything, the call returns `ctx.Err()`. -/
 theorem at_most_one_op_after_stop_partial (id rootId : Nat) (entries : List Entry) (pre : List Choice)
     (hroot : rootId ≤ id)
     (hw : (runSched Generated.C09.facts (start Generated.C09.facts id rootId entries) pre).watching = true)
-    (hdom : Dom Generated.C09.facts entries (runSched Generated.C09.facts (start Generated.C09.facts id rootId entries) pre) = true) :
+    (hdom : Dom Generated.C09.facts (runSched Generated.C09.facts (start Generated.C09.facts id rootId entries) pre) = true) :
     StopsEverything Generated.C09.facts (runSched Generated.C09.facts (start Generated.C09.facts id rootId entries) pre) := by
-  simp only [Dom, Bool.and_eq_true, List.isEmpty_iff, List.all_eq_true] at hdom
-  revert hw hdom
+  have hc : ∀ e ∈ entries, e.prog.canc Generated.C09.facts = true := fun e _ => all_cancellable e.prog
+  revert hw hdom hc
   rw [runidfacts_tie]
-  intro hw hdom
-  exact stops_everything_of expected_sound id rootId entries pre hroot hw (Or.inl hdom.1) hdom.2
+  intro hw hdom hc
+  exact stops_everything_of expected_sound id rootId entries pre hroot hw hc hdom
 
-/-- non-vacuity: a program with a goroutine blocked in a `select`, a busy main, cancelled in the middle, is in `Dom`,
-    and something is in flight at that moment -/
+/-- non-vacuity: a run list of three entries; the cancellation arrives in the SECOND one (an init function), while
+    it has a call of a closure of an earlier evaluation in flight (in the goroutine of `Execute`: allowed); a
+    goroutine started by a global initialiser is blocked in a receive compiled by a plain `Eval`; `main` is pending -/
 def exEntries : List Entry :=
-  [{ root := true, prog := .step .done },
-   { root := false, prog := .tick (.spawn .call (.step (.block .select true .done)) (.step (.step (.tick .done)))) }]
-def exPre : List Choice := [.run 0, .run 0, .run 0, .run 0, .run 0, .run 0, .run 0, .run 0, .run 0, .run 1, .run 1, .run 1, .run 1, .run 0]
+  [{ root := true, prog := .spawn .call (.step (.block .recv false .done)) (.step .done) },
+   { root := false, prog := .tick (.call .earlier (.step (.block .select true .done)) (.step (.tick .done))) },
+   { root := false, prog := .tick (.step .done) }]
+def exPre : List Choice :=
+  [.run 0, .run 0, .run 0, .run 1, .run 1, .run 1, .run 1, .run 1, .run 0, .run 0, .run 0, .run 0, .run 0, .run 0, .run 0]
 example :
     let σ1 := runSched Generated.C09.facts (start Generated.C09.facts 0 0 exEntries) exPre
-    σ1.watching = true ∧ Dom Generated.C09.facts exEntries σ1 = true ∧ armedOf σ1 0 = true ∧
-      (σ1.gs[1]?.map (·.blocked)) = some (some (.select, true)) ∧ opsOf σ1 0 = 3 := by
+    σ1.watching = true ∧ Dom Generated.C09.facts σ1 = true ∧ armedOf σ1 0 = true ∧ σ1.runList.length = 1 ∧
+      (σ1.gs[1]?.map (·.blocked)) = some (some (.recv, true)) ∧ opsOf σ1 0 = 3 ∧
+      (σ1.gs[0]?.map (fun g => g.stack.head?.map (·.pc))) =
+        some (some (.call .earlier (.step (.block .select true .done)) (.step (.tick .done)))) := by
   decide
 
 /-- **The call returns the context's error**, whatever the program is doing and wherever `Execute` is: once the
@@ -185,62 +234,119 @@ theorem eval_returns_ctx_err (σ : St) (post : List Choice) (hw : σ.watching = 
     simp [stepStop, hw, Expected.C09.facts]
   exact (ret_stable _ post _ hs.1).2.trans hs.2
 
-/-! ### what `Dom` excludes (F09, F26) -/
+/-! ### the repaired findings: regression examples on the extracted facts, witnesses on the old facts -/
 
 /-- F09. A global initialiser `var x = f()` is running (`f` has executed one operation) when the context is
-    cancelled; `init` and `main` (one host call each) still run afterwards. -/
+    cancelled; an `init` function and `main` (one host call each) are pending. -/
 def f09Entries : List Entry :=
   [{ root := true, prog := .call .call (.step (.step .done)) (.step .done) },
    { root := false, prog := .tick .done },
    { root := false, prog := .tick (.step .done) }]
 def f09Pre : List Choice := [.run 0, .run 0, .run 0, .run 0, .run 0, .run 0]
 
-theorem cancel_during_init_witness :
+/-- F09 repaired (c403bf5): only the operation in flight runs; `Execute` walks the two pending entries without
+    executing anything and returns (its deferred refresh gives the root frame the new id) -/
+theorem cancel_during_init_stops :
     let σ1 := runSched Generated.C09.facts (start Generated.C09.facts 0 0 f09Entries) f09Pre
     let σ3 := runSched Generated.C09.facts (stepC Generated.C09.facts σ1 .stop) (List.replicate 20 (.run 0))
+    σ1.watching = true ∧ σ1.runList.length = 2 ∧ opsOf σ1 0 = 2 ∧ armedOf σ1 0 = true ∧
+      opsOf σ3 0 = 3 ∧ ticksOf σ3 0 = 0 ∧ σ3.runList = [] ∧ (σ3.gs[0]?.map finished) = some true ∧ σ3.rootId = σ3.id := by
+  decide
+
+/-- F09 before the repair (`interp.run` gave every entry the interpreter's current id): `init` and `main` still ran -/
+theorem cancel_during_init_witness_old :
+    let F := Expected.C09.oldFacts
+    let σ1 := runSched F (start F 0 0 f09Entries) f09Pre
+    let σ3 := runSched F (stepC F σ1 .stop) (List.replicate 20 (.run 0))
     σ1.watching = true ∧ σ1.runList.length = 2 ∧ opsOf σ1 0 = 2 ∧ armedOf σ1 0 = true ∧
       opsOf σ3 0 = 6 ∧ ticksOf σ1 0 = 0 ∧ ticksOf σ3 0 = 2 := by
   decide
 
-/-- the full-strength statement is false for the interpreter as it is -/
-theorem full_statement_false : ¬ C09_full_statement Generated.C09.facts := by
+/-- F26. A goroutine is blocked in `<-c` whose closure was generated by a plain `Eval` (`canc = false`). -/
+def f26Entries : List Entry :=
+  [{ root := false, prog := .spawn .call (.step (.block .recv false .done)) (.step (.step (.step .done))) }]
+def f26Pre : List Choice := [.run 0, .run 0, .run 0, .run 1, .run 1, .run 1, .run 1, .run 1, .run 0, .run 0]
+
+/-- F26 repaired (cc65000): the operation races `done`, the cancellation releases it, the goroutine ends -/
+theorem plain_eval_chanop_released :
+    let σ1 := runSched Generated.C09.facts (start Generated.C09.facts 0 0 f26Entries) f26Pre
+    let σ3 := drain Generated.C09.facts (stepC Generated.C09.facts σ1 .stop) 20
+    σ1.watching = true ∧ (σ1.gs[1]?.map (·.blocked)) = some (some (.recv, true)) ∧
+      (σ3.gs[1]?.map finished) = some true ∧ (σ3.gs[0]?.map finished) = some true ∧ opsOf σ3 1 = opsOf σ1 1 := by
+  decide
+
+/-- F26 before the repair: the bare variant was compiled, the goroutine stayed blocked however long it was run -/
+theorem stale_variant_witness_old :
+    let F := Expected.C09.oldFacts
+    let σ1 := runSched F (start F 0 0 f26Entries) f26Pre
+    let σ3 := drain F (stepC F σ1 .stop) 20
+    σ1.watching = true ∧ σ1.runList = [] ∧ (σ1.gs[1]?.map (·.blocked)) = some (some (.recv, false)) ∧
+      (σ3.gs[1]?.map (·.blocked)) = some (some (.recv, false)) ∧ (σ3.gs[0]?.map finished) = some true ∧
+      (stepC F σ3 (.run 1)).gs = σ3.gs := by
+  decide
+
+/-- F09-2. A goroutine runs a closure made by an earlier evaluation (`Site.earlier`) and is blocked in a `select`. -/
+def f092Entries : List Entry :=
+  [{ root := false, prog := .spawn .earlier (.step (.block .select true .done)) (.step (.step (.step .done))) }]
+
+/-- F09-2 repaired (1578873): the frame of the call races the done channel of the evaluation that makes the call -/
+theorem earlier_closure_released :
+    let σ1 := runSched Generated.C09.facts (start Generated.C09.facts 0 0 f092Entries) f26Pre
+    let σ3 := drain Generated.C09.facts (stepC Generated.C09.facts σ1 .stop) 20
+    σ1.watching = true ∧ (σ1.gs[1]?.map (·.blocked)) = some (some (.select, true)) ∧
+      (σ3.gs[1]?.map finished) = some true ∧ (σ3.gs[0]?.map finished) = some true := by
+  decide
+
+/-- F09-2 before the repair: the cloned frame kept the done channel of the evaluation that made the closure -/
+theorem stale_done_witness_old :
+    let F := Expected.C09.oldFacts
+    let σ1 := runSched F (start F 0 0 f092Entries) f26Pre
+    let σ3 := drain F (stepC F σ1 .stop) 20
+    σ1.watching = true ∧ σ1.runList = [] ∧ (σ1.gs[1]?.map (·.blocked)) = some (some (.select, false)) ∧
+      (σ3.gs[1]?.map (·.blocked)) = some (some (.select, false)) ∧ (σ3.gs[0]?.map finished) = some true ∧
+      (stepC F σ3 (.run 1)).gs = σ3.gs := by
+  decide
+
+/-- the full-strength statement was false for the interpreter before the repairs (F09) -/
+theorem full_statement_false_old : ¬ C09_full_statement Expected.C09.oldFacts := by
   intro h
   have := (h 0 0 f09Entries f09Pre (Nat.le_refl 0) (by decide) (List.replicate 20 (.run 0))).1 0
   revert this
   decide
 
-/-- F26. A goroutine is blocked in `<-c` whose closure was generated by a plain `Eval` (`canc = false`): after
-    the cancellation, in the last entry of the run list, it is still blocked however long the goroutines are run. -/
-def f26Entries : List Entry :=
-  [{ root := false, prog := .spawn .call (.step (.block .recv false .done)) (.step (.step (.step .done))) }]
-def f26Pre : List Choice := [.run 0, .run 0, .run 0, .run 1, .run 1, .run 1, .run 1, .run 0, .run 0]
+/-! ### what `Dom` excludes now (F09-3) -/
 
-theorem stale_variant_witness :
-    let σ1 := runSched Generated.C09.facts (start Generated.C09.facts 0 0 f26Entries) f26Pre
-    let σ3 := drain Generated.C09.facts (stepC Generated.C09.facts σ1 .stop) 20
-    σ1.watching = true ∧ σ1.runList = [] ∧ (σ1.gs[1]?.map (·.blocked)) = some (some (.recv, false)) ∧
-      (σ3.gs[1]?.map (·.blocked)) = some (some (.recv, false)) ∧ (σ3.gs[0]?.map finished) = some true ∧
-      (stepC Generated.C09.facts σ3 (.run 1)).gs = σ3.gs := by
+/-- F09-3. `main` has `go func() { tick; step; tick }()` in flight when the context is cancelled. -/
+def f093Entries : List Entry :=
+  [{ root := false, prog := .step (.spawn .closure (.tick (.step (.tick .done))) .done) }]
+def f093Pre : List Choice := [.run 0, .run 0, .run 0, .run 0]
+
+/-- F09-3: the `go` statement in flight is executed; `Execute` returns (its deferred refresh gives the root frame the
+    new id) before the new goroutine makes its frame; the frame takes that id: the whole goroutine runs, two host
+    calls included, after the cancellation. Had the goroutine made its frame first (second schedule), it would have
+    been stale. -/
+theorem funcvalue_in_flight_witness :
+    let F := Generated.C09.facts
+    let σ1 := runSched F (start F 0 0 f093Entries) f093Pre
+    let σ3 := runSched F (stepC F σ1 .stop) [.run 0, .run 0, .run 0, .run 1, .run 1, .run 1, .run 1, .run 1, .run 1, .run 1]
+    let σ3' := runSched F (stepC F σ1 .stop) [.run 0, .run 1, .run 0, .run 0, .run 1, .run 1, .run 1, .run 1, .run 1, .run 1]
+    σ1.watching = true ∧ Dom F σ1 = false ∧ armedOf σ1 0 = true ∧ σ1.gs.length = 1 ∧
+      σ3.ret = some .ctxErr ∧ opsOf σ3 1 = 3 ∧ ticksOf σ3 1 = 2 ∧
+      opsOf σ3' 1 = 0 ∧ ticksOf σ3' 1 = 0 := by
   decide
 
-/-- F09-2. A goroutine runs a closure made by an earlier evaluation (`Site.earlier`: the cloned frame kept that
-    evaluation's done channel) and is blocked in a `select` — an operation that always lists `f.done`; the
-    cancellation does not release it: the channel it races is not the one `stop()` closes. -/
-def f092Entries : List Entry :=
-  [{ root := false, prog := .spawn .earlier (.step (.block .select true .done)) (.step (.step (.step .done))) }]
-
-theorem stale_done_witness :
-    let σ1 := runSched Generated.C09.facts (start Generated.C09.facts 0 0 f092Entries) f26Pre
-    let σ3 := drain Generated.C09.facts (stepC Generated.C09.facts σ1 .stop) 20
-    σ1.watching = true ∧ σ1.runList = [] ∧ (σ1.gs[1]?.map (·.blocked)) = some (some (.select, false)) ∧
-      (σ3.gs[1]?.map (·.blocked)) = some (some (.select, false)) ∧ (σ3.gs[0]?.map finished) = some true ∧
-      (stepC Generated.C09.facts σ3 (.run 1)).gs = σ3.gs := by
+/-- the full-strength statement is false for the interpreter as it is (F09-3) -/
+theorem full_statement_false : ¬ C09_full_statement Generated.C09.facts := by
+  intro h
+  have := (h 0 0 f093Entries f093Pre (Nat.le_refl 0) (by decide)
+    [.run 0, .run 0, .run 0, .run 1, .run 1, .run 1, .run 1, .run 1, .run 1, .run 1]).1 1
+  revert this
   decide
 
-/-! ### the repairs -/
+/-! ### the specification -/
 
 theorem ideal_all_cancellable (p : Prog) : p.canc Expected.C09.ideal = true := by
-  have hcur : ∀ s, childCur Expected.C09.ideal s true = true := by intro s; cases s <;> rfl
+  have hcur : ∀ s, childCur Expected.C09.ideal s true true = true := by intro s; cases s <;> rfl
   induction p with
   | done => rfl
   | step p ih => simpa [Prog.canc] using ih
@@ -252,13 +358,27 @@ theorem ideal_all_cancellable (p : Prog) : p.canc Expected.C09.ideal = true := b
     simp only [Prog.canc, ih, Bool.and_true]
     cases k <;> cases c <;> rfl
 
-/-- **With three repairs the statement holds at full strength**: if `Execute` abandons its run list after a
-    cancellation, the channel generators do not depend on when they were generated, and a closure's frame takes the
-    done channel of the evaluation that calls it (`Expected.C09.ideal`, the specification column of the
+theorem ideal_dom (σ : St) : Dom Expected.C09.ideal σ = true := by
+  have hs : ∀ s, fvSite Expected.C09.ideal s = false := by intro s; cases s <;> rfl
+  simp only [Dom, List.all_eq_true]
+  intro g _
+  obtain ⟨stack, armed, blocked, ops, ticks, main, pending⟩ := g
+  cases pending with
+  | some pd =>
+    cases stack with
+    | nil => simp [G.fvPending, hs]
+    | cons fr rest => obtain ⟨fid, pc, fcur⟩ := fr; cases pc <;> simp [G.fvPending, hs]
+  | none =>
+    cases stack with
+    | nil => simp [G.fvPending]
+    | cons fr rest => obtain ⟨fid, pc, fcur⟩ := fr; cases pc <;> simp [G.fvPending, hs]
+
+/-- **With one more repair the statement holds at full strength**: if the frame of a call of a function value made
+    by an operation of a frame took that frame's id (`Expected.C09.ideal`, the specification column of the
     correspondence): every program, every schedule, every moment. -/
 theorem ideal_full : C09_full_statement Expected.C09.ideal := by
   intro id rootId entries pre hroot hw
-  exact stops_everything_of ideal_sound id rootId entries pre hroot hw (Or.inr rfl)
-    (fun e _ => ideal_all_cancellable e.prog)
+  exact stops_everything_of ideal_sound id rootId entries pre hroot hw
+    (fun e _ => ideal_all_cancellable e.prog) (ideal_dom _)
 
 end YaegiVerif.Props.C09
